@@ -492,3 +492,6 @@ CHECKS["C13"]["status"] = ("reactive-level statement proved for all trees and al
                            "from shell + fragments shows what the blocking render shows (C13_stream_equals_blocking, tree level)")
 CHECKS["C13"]["partial"] = [{"theorem": "string-level application of fragments", "missing": "the client script's splice of a <template> into the document is not formalised; the harness applies the fragments to the real shell text and compares visible content with the real blocking render"},
                             {"theorem": "order of unrelated fragments within one executor turn", "missing": "follows the scheduling of effects; canonicalised in the correspondence (listed by key), parent-first judged by the oracle on the real order"}]
+CHECKS["C09"]["classes"] = CHECKS["C09"]["classes"] + ["hydrate-list"]
+CHECKS["C09"]["partial"] = CHECKS["C09"]["partial"] + [{"theorem": "C09 for views containing Keyed / Indexed", "missing": "false on the real code (known finding D17: lists cannot be hydrated at all); not modelled"}]
+CHECKS["C09"]["manifest_note"] = CHECKS["C09"]["manifest_note"].replace("NoSsr and Keyed/Indexed under hydration are not.", "Keyed under hydration is generated (4 families x 4 stores) and is a known finding (D17: the server renders no markers for lists, every such view panics on hydration); NoSsr is not in the language.")
